@@ -76,6 +76,7 @@ impl Mon<T, T> {
 
     /// Run `op` with the fuse armed, then check that the map survived the panic.
     pub fn step_faulted(&mut self, op: &Op, kind: Cb, index: u64) -> Res<FaultInfo> {
+        heartbeat();
         let st0 = self.state();
         let split = st0.old.as_ref().map_or(false, |o| o.table.len > 0);
         let loc0 = if op_has_key(op.code) { Some(self.locate(op.k)) } else { None };
